@@ -66,287 +66,294 @@ def run(repo, chk):
     P = h - elev
 
     # ---------------------------------------------------------------- R-C07-1 branch structure
-    fn, paths, ex = B.run_builder(repo, CON, "pdd_constraint.build")
-    chk.fn(fn)
-    g = {}
-    seen_exp = set()
-    widths = set()
-    baked = set()
-    for p in paths:
-        iso = [v for t, v in p.conds if t.endswith("._is_isolated")]
-        st = p.stores("m.pdd[")
-        if iso and iso[0]:
-            chk.expect(not st, "R-C07-1", "isolated junction gets no PDD row", loc(fn))
-            continue
-        none = [v for t, v in p.conds if t.endswith(".pressure_exponent is None")]
-        if not st or not isinstance(st[-1][1], Constraint) or not isinstance(st[-1][1].expr, CondExpr):
-            chk.bad("R-C07-1", "pdd_constraint stores a conditional constraint per connected junction", loc(fn), found=[s[0] for s in st])
-            continue
-        ce = st[-1][1].expr
-        brs = list(ce.branches) + [(None, ce.final)]
-        tag = "exponent from %s" % ("global option" if none and none[0] else "junction")
-        if len(brs) != 5:
-            chk.bad("R-C07-1", "pdd_constraint has five branches [%s]" % tag, loc(fn), found=len(brs))
-            continue
-        # which exponent symbol is used?
-        raw3 = ex.S(brs[2][1])
-        src = [s.name for s in raw3.free_symbols if s.name.endswith("pressure_exponent")]
-        want_src = "wn.options.hydraulic.pressure_exponent" if none and none[0] else "wn.get_node(node_name).pressure_exponent"
-        chk.expect(src == [want_src], "R-C07-1", "exponent is the junction's pressure_exponent if set, else the global option [%s]" % tag, loc(fn),
-                   expected=want_src, found=src)
-        seen_exp.add(bool(none and none[0]))
-        refs = [slope * (P - pmin), None, ((P - pmin) / (pnom - pmin)) ** E, None, slope * (P - pnom) + 1]
-        a1, b1, c1, d1 = (cs("pdd_poly1_coeffs_" + k) for k in "abcd")
-        a2, b2, c2, d2 = (cs("pdd_poly2_coeffs_" + k) for k in "abcd")
-        refs[1] = a1 * P ** 3 + b1 * P ** 2 + c1 * P + d1
-        refs[3] = a2 * P ** 3 + b2 * P ** 2 + c2 * P + d2
-        bodies = []
-        for gd, _e in brs[:4]:
-            if not (isinstance(gd, Ineq) and gd.lb is None and gd.ub is not None):
-                bodies = None
-                break
-            bodies.append(canon(gd.body)[0] - canon(ex.S(gd.ub))[0])
-        if bodies is None:
-            chk.bad("R-C07-1", "the four guards are upper-bounded inequalities [%s]" % tag, loc(fn), found=[str(b[0]) for b in brs[:4]])
-            continue
-        # band width as the constraint sees it: whatever separates guard 1 from p-Pmin and guard 2 from p-Pnom (a constant or a per-junction Param)
-        w_lo = sp.simplify((P - pmin) - bodies[1])
-        w_hi = sp.simplify(bodies[2] - (P - pnom))
-        free = {s_.name for s_ in (w_lo.free_symbols | w_hi.free_symbols)}
-        chk.expect(is_zero(w_lo - w_hi) and not ({"h", "elev", "demand"} & free), "R-C07-1",
-                   "both smoothing bands of the constraint have one width that does not depend on the unknowns [%s]" % tag, loc(fn),
-                   found="lower band %s, upper band %s" % (w_lo, w_hi))
-        widths.add(w_lo)
-        gref = [P - pmin, P - pmin - w_lo, P - pnom + w_lo, P - pnom]
-        for i, (gd, e) in enumerate(brs):
-            R, _ = canon(ex.S(e))
-            chk.expect(is_zero(R - (d - D * refs[i])), "R-C07-1", "branch %d residual is  d - D*g%d(p) [%s]" % (i, i + 1, tag), loc(fn),
-                       "documented pressure-demand curve", expected=str(d - D * refs[i]), found=str(R))
-            if gd is not None:
-                chk.expect(is_zero(bodies[i] - gref[i]), "R-C07-1", "branch %d guard is p <= %s [%s]" % (i, ["Pmin", "Pmin + band", "Pnom - band", "Pnom"][i], tag), loc(fn),
-                           expected="%s <= 0" % gref[i], found=str(gd))
-        # values of the junction baked into the row as plain numbers (not Params): the row must be rebuilt when they change
-        for gd, e in brs:
-            for s_ in ex.S(e).free_symbols:
-                if s_.name.startswith("wn.get_node(node_name)."):
-                    baked.add(s_.name.split(".")[-1])
-        for t, v in p.conds:
-            if t.startswith("wn.get_node(node_name).") and t.endswith(" is None"):
-                baked.add(t[len("wn.get_node(node_name)."):-len(" is None")])
-        g = {1: refs[0], 3: refs[2], 5: refs[4]}
-    B.check_updaters(chk, "R-C07-1", fn, "pdd_constraint", paths, {"_is_isolated"} | baked, loc(fn))
-    if len(widths) != 1:
-        raise ExtractError("pdd_constraint: band width not unique across paths: %s" % sorted(map(str, widths)))
-    W = widths.pop()
-    chk.expect(seen_exp == {True, False}, "R-C07-1", "both exponent sources (junction / global) are handled", loc(fn), found=sorted(seen_exp))
-    # monotone analytic branches
-    pp = sp.Symbol("p", positive=True)
-    gap = sp.Symbol("gap", positive=True)           # Pnom - Pmin > 0
-    e01 = sp.Symbol("pressure_exponent", positive=True)
-    chk.expect(sp.diff(slope * (pp), pp).is_positive, "R-C07-1", "branch 1 and 5 slopes are positive (pdd_slope > 0)", loc(fn))
-    d3 = sp.diff((pp / gap) ** e01, pp)
-    chk.expect(sp.simplify(d3).is_nonnegative or sp.simplify(d3).is_positive, "R-C07-1", "power-law branch is non-decreasing for p > Pmin, Pnom > Pmin, E > 0", loc(fn), found=str(d3))
-    consts = B.constants(repo)
-    sl = consts.get("pdd_slope")
-    dl = consts.get("pdd_smoothing_delta")
-    chk.expect(sl is not None and sl[0] > 0 and sl[0] < sp.Rational(1, 1000), "R-C07-1", "pdd_slope is a small positive constant", loc(B.CONSTANTS), found=str(sl))
-    chk.expect(dl is not None and dl[0] > 0, "R-C07-1", "pdd_smoothing_delta is positive", loc(B.CONSTANTS), found=str(dl))
-    chk.floor("R-C07-1", 2 * (1 + 5 + 4) + 4)
+    with chk.part("R-C07-1 branch structure"):
+        fn, paths, ex = B.run_builder(repo, CON, "pdd_constraint.build")
+        chk.fn(fn)
+        g = {}
+        seen_exp = set()
+        widths = set()
+        baked = set()
+        for p in paths:
+            iso = [v for t, v in p.conds if t.endswith("._is_isolated")]
+            st = p.stores("m.pdd[")
+            if iso and iso[0]:
+                chk.expect(not st, "R-C07-1", "isolated junction gets no PDD row", loc(fn))
+                continue
+            none = [v for t, v in p.conds if t.endswith(".pressure_exponent is None")]
+            if not st or not isinstance(st[-1][1], Constraint) or not isinstance(st[-1][1].expr, CondExpr):
+                chk.bad("R-C07-1", "pdd_constraint stores a conditional constraint per connected junction", loc(fn), found=[s[0] for s in st])
+                continue
+            ce = st[-1][1].expr
+            brs = list(ce.branches) + [(None, ce.final)]
+            tag = "exponent from %s" % ("global option" if none and none[0] else "junction")
+            if len(brs) != 5:
+                chk.bad("R-C07-1", "pdd_constraint has five branches [%s]" % tag, loc(fn), found=len(brs))
+                continue
+            # which exponent symbol is used?
+            raw3 = ex.S(brs[2][1])
+            src = [s.name for s in raw3.free_symbols if s.name.endswith("pressure_exponent")]
+            want_src = "wn.options.hydraulic.pressure_exponent" if none and none[0] else "wn.get_node(node_name).pressure_exponent"
+            chk.expect(src == [want_src], "R-C07-1", "exponent is the junction's pressure_exponent if set, else the global option [%s]" % tag, loc(fn),
+                       expected=want_src, found=src)
+            seen_exp.add(bool(none and none[0]))
+            refs = [slope * (P - pmin), None, ((P - pmin) / (pnom - pmin)) ** E, None, slope * (P - pnom) + 1]
+            a1, b1, c1, d1 = (cs("pdd_poly1_coeffs_" + k) for k in "abcd")
+            a2, b2, c2, d2 = (cs("pdd_poly2_coeffs_" + k) for k in "abcd")
+            refs[1] = a1 * P ** 3 + b1 * P ** 2 + c1 * P + d1
+            refs[3] = a2 * P ** 3 + b2 * P ** 2 + c2 * P + d2
+            bodies = []
+            for gd, _e in brs[:4]:
+                if not (isinstance(gd, Ineq) and gd.lb is None and gd.ub is not None):
+                    bodies = None
+                    break
+                bodies.append(canon(gd.body)[0] - canon(ex.S(gd.ub))[0])
+            if bodies is None:
+                chk.bad("R-C07-1", "the four guards are upper-bounded inequalities [%s]" % tag, loc(fn), found=[str(b[0]) for b in brs[:4]])
+                continue
+            # band width as the constraint sees it: whatever separates guard 1 from p-Pmin and guard 2 from p-Pnom (a constant or a per-junction Param)
+            w_lo = sp.simplify((P - pmin) - bodies[1])
+            w_hi = sp.simplify(bodies[2] - (P - pnom))
+            free = {s_.name for s_ in (w_lo.free_symbols | w_hi.free_symbols)}
+            chk.expect(is_zero(w_lo - w_hi) and not ({"h", "elev", "demand"} & free), "R-C07-1",
+                       "both smoothing bands of the constraint have one width that does not depend on the unknowns [%s]" % tag, loc(fn),
+                       found="lower band %s, upper band %s" % (w_lo, w_hi))
+            widths.add(w_lo)
+            gref = [P - pmin, P - pmin - w_lo, P - pnom + w_lo, P - pnom]
+            for i, (gd, e) in enumerate(brs):
+                R, _ = canon(ex.S(e))
+                chk.expect(is_zero(R - (d - D * refs[i])), "R-C07-1", "branch %d residual is  d - D*g%d(p) [%s]" % (i, i + 1, tag), loc(fn),
+                           "documented pressure-demand curve", expected=str(d - D * refs[i]), found=str(R))
+                if gd is not None:
+                    chk.expect(is_zero(bodies[i] - gref[i]), "R-C07-1", "branch %d guard is p <= %s [%s]" % (i, ["Pmin", "Pmin + band", "Pnom - band", "Pnom"][i], tag), loc(fn),
+                               expected="%s <= 0" % gref[i], found=str(gd))
+            # values of the junction baked into the row as plain numbers (not Params): the row must be rebuilt when they change
+            for gd, e in brs:
+                for s_ in ex.S(e).free_symbols:
+                    if s_.name.startswith("wn.get_node(node_name)."):
+                        baked.add(s_.name.split(".")[-1])
+            for t, v in p.conds:
+                if t.startswith("wn.get_node(node_name).") and t.endswith(" is None"):
+                    baked.add(t[len("wn.get_node(node_name)."):-len(" is None")])
+            g = {1: refs[0], 3: refs[2], 5: refs[4]}
+        B.check_updaters(chk, "R-C07-1", fn, "pdd_constraint", paths, {"_is_isolated"} | baked, loc(fn))
+        if len(widths) != 1:
+            raise ExtractError("pdd_constraint: band width not unique across paths: %s" % sorted(map(str, widths)))
+        W = widths.pop()
+        chk.expect(seen_exp == {True, False}, "R-C07-1", "both exponent sources (junction / global) are handled", loc(fn), found=sorted(seen_exp))
+        # monotone analytic branches
+        pp = sp.Symbol("p", positive=True)
+        gap = sp.Symbol("gap", positive=True)           # Pnom - Pmin > 0
+        e01 = sp.Symbol("pressure_exponent", positive=True)
+        chk.expect(sp.diff(slope * (pp), pp).is_positive, "R-C07-1", "branch 1 and 5 slopes are positive (pdd_slope > 0)", loc(fn))
+        d3 = sp.diff((pp / gap) ** e01, pp)
+        chk.expect(sp.simplify(d3).is_nonnegative or sp.simplify(d3).is_positive, "R-C07-1", "power-law branch is non-decreasing for p > Pmin, Pnom > Pmin, E > 0", loc(fn), found=str(d3))
+        consts = B.constants(repo)
+        sl = consts.get("pdd_slope")
+        dl = consts.get("pdd_smoothing_delta")
+        chk.expect(sl is not None and sl[0] > 0 and sl[0] < sp.Rational(1, 1000), "R-C07-1", "pdd_slope is a small positive constant", loc(B.CONSTANTS), found=str(sl))
+        chk.expect(dl is not None and dl[0] > 0, "R-C07-1", "pdd_smoothing_delta is positive", loc(B.CONSTANTS), found=str(dl))
+        chk.floor("R-C07-1", 2 * (1 + 5 + 4) + 4)
 
     # ---------------------------------------------------------------- R-C07-2 spline soundness
-    sfn = repo.func(B.SPLINE, "cubic_spline")
-    chk.fn(sfn)
-    exs = SymExec()
-    outs = exs.run(sfn)
-    if len(outs) != 1 or not isinstance(outs[0].ret, tuple) or len(outs[0].ret) != 4:
-        raise ExtractError("cubic_spline: expected one path returning 4 coefficients")
-    a, b, c, dd = (exs.S(v) for v in outs[0].ret)
-    x = sp.Symbol("x")
-    poly = a * x ** 3 + b * x ** 2 + c * x + dd
-    sy = lambda n: exs.sym(n)
-    for nm, lhs, rhs in (("p(x1)=f1", poly.subs(x, sy("x1")), sy("f1")), ("p(x2)=f2", poly.subs(x, sy("x2")), sy("f2")),
-                         ("p'(x1)=df1", sp.diff(poly, x).subs(x, sy("x1")), sy("df1")), ("p'(x2)=df2", sp.diff(poly, x).subs(x, sy("x2")), sy("df2"))):
-        chk.expect(sp.simplify(lhs - rhs) == 0, "R-C07-2", "cubic_spline interpolation identity %s" % nm, loc(sfn), found=str(sp.simplify(lhs - rhs)))
-    chk.floor("R-C07-2", 4)
+    with chk.part("R-C07-2 spline soundness"):
+        sfn = repo.func(B.SPLINE, "cubic_spline")
+        chk.fn(sfn)
+        exs = SymExec()
+        outs = exs.run(sfn)
+        if len(outs) != 1 or not isinstance(outs[0].ret, tuple) or len(outs[0].ret) != 4:
+            raise ExtractError("cubic_spline: expected one path returning 4 coefficients")
+        a, b, c, dd = (exs.S(v) for v in outs[0].ret)
+        x = sp.Symbol("x")
+        poly = a * x ** 3 + b * x ** 2 + c * x + dd
+        sy = lambda n: exs.sym(n)
+        for nm, lhs, rhs in (("p(x1)=f1", poly.subs(x, sy("x1")), sy("f1")), ("p(x2)=f2", poly.subs(x, sy("x2")), sy("f2")),
+                             ("p'(x1)=df1", sp.diff(poly, x).subs(x, sy("x1")), sy("df1")), ("p'(x2)=df2", sp.diff(poly, x).subs(x, sy("x2")), sy("df2"))):
+            chk.expect(sp.simplify(lhs - rhs) == 0, "R-C07-2", "cubic_spline interpolation identity %s" % nm, loc(sfn), found=str(sp.simplify(lhs - rhs)))
+        chk.floor("R-C07-2", 4)
 
     # ---------------------------------------------------------------- R-C07-3 breakpoint agreement (as formulas in E)
-    rec = []
-    pfn, ppaths, pex = B.run_builder(repo, PAR, "pdd_poly_coeffs_param.build", call_hook=spline_hook(rec))
-    chk.fn(pfn)
-    # analyse each path separately: re-run per path is not needed, the hook records calls per evaluation order; use the path where
-    # both node values are set and the one where both are None -- the recorded data must agree on every path after canonicalisation.
-    npaths = 0
-    wexprs = []
-    for pth in ppaths:
-        if pth.st.raised:
-            continue
-        rec2 = []
-        # re-run with a hook bound to this path's decisions
-        decisions = dict(pth.conds)
-
-        def th(txt, node, st, decisions=decisions):
-            r = B.std_test_hook(txt, node, st)
-            if r is not None:
-                return r
-            return decisions.get(txt)
-        _, pp2, ex2 = B.run_builder(repo, PAR, "pdd_poly_coeffs_param.build", test_hook=th, call_hook=spline_hook(rec2))
-        pp2 = [q_ for q_ in pp2 if not q_.st.raised]
-        if len(pp2) != 1 or len(rec2) != 2:
-            raise ExtractError("pdd_poly_coeffs_param: expected one path with two cubic_spline calls, got %d paths / %d calls" % (len(pp2), len(rec2)))
-        npaths += 1
-        p2 = pp2[0]
-        eglob = decisions.get("wn.get_node(node_name).pressure_exponent is None")
-        tag = "Pmin %s, Pnom %s, E %s" % ("global" if decisions.get("wn.get_node(node_name).minimum_pressure is None") else "junction",
-                                            "global" if decisions.get("wn.get_node(node_name).required_pressure is None") else "junction",
-                                            "literal" if eglob is None else ("global" if eglob else "junction"))
-        rawE = set()
-        for r in rec2:
-            for v in r:
-                try:
-                    rawE |= {s_.name for s_ in ex2.S(v).free_symbols if s_.name.endswith("pressure_exponent")}
-                except ExtractError:
-                    pass
-        if eglob is not None:
-            wantE = {"wn.options.hydraulic.pressure_exponent"} if eglob else {"wn.get_node(node_name).pressure_exponent"}
-            chk.expect(rawE == wantE, "R-C07-4", "pdd_poly_coeffs_param takes the exponent from the junction if set, else from the global option [%s]" % tag, loc(pfn),
-                       "the spline data and the constraint must use the same exponent", expected=sorted(wantE), found=sorted(rawE))
-        # exponent used for the neighbours: the same junction-or-global rule; accept a param builder that reads the exponent (either source) or E
-        sub = {cs("minimum_pressure"): pmin, cs("required_pressure"): pnom}
-
-        def C(v):
-            e_, _ = canon(ex2.S(v))
-            return e_.xreplace(sub)
-        (x1a, x2a, f1a, f2a, df1a, df2a), (x1b, x2b, f1b, f2b, df1b, df2b) = [[C(v) for v in r] for r in rec2]
-        # the band width the spline data are built with; if the constraint reads its band from a per-junction Param, that Param must be
-        # filled here with the same expression (plumbing), else the guards and the fitted interval disagree
-        wb = sp.simplify(x2a - x1a)
-        wexprs.append((tag, wb))
-        if W == delta:
-            w_con = delta
-        else:
-            pname = [s_.name for s_ in W.free_symbols]
-            stored = None
-            for e in p2.st.events:
-                if e[0] == "call" and e[1].startswith("aml.Param("):
-                    pass
-            sts = [x_ for x_ in p2.stores("m.") if x_[0].endswith("[node_name]") and canon(ex2.sym(x_[0]))[0] == W]
-            pars = [e for e in p2.st.events if e[0] == "call" and e[1].startswith("aml.Param(")]
-            allst = [x_ for x_ in p2.stores("m.") if x_[0].endswith("[node_name]")]
-            for (t_, v_, ln_), pe in zip(allst, pars):
-                if canon(ex2.sym(t_))[0] == W:
-                    stored = C(pe[2][1][0])
-            if stored is None:
-                chk.bad("R-C07-3", "the per-junction band width %s read by the constraint is filled by pdd_poly_coeffs_param [%s]" % (W, tag), loc(pfn),
-                        found=[x_[0] for x_ in allst][:12])
+    with chk.part("R-C07-3 breakpoint agreement (as formulas in E)"):
+        rec = []
+        pfn, ppaths, pex = B.run_builder(repo, PAR, "pdd_poly_coeffs_param.build", call_hook=spline_hook(rec))
+        chk.fn(pfn)
+        # analyse each path separately: re-run per path is not needed, the hook records calls per evaluation order; use the path where
+        # both node values are set and the one where both are None -- the recorded data must agree on every path after canonicalisation.
+        npaths = 0
+        wexprs = []
+        for pth in ppaths:
+            if pth.st.raised:
                 continue
-            chk.expect(is_zero(stored - wb), "R-C07-3", "the band width stored for the constraint equals the one the splines are fitted on [%s]" % tag, loc(pfn),
-                       expected=str(wb), found=str(stored))
-            w_con = wb
-        g1 = lambda q: slope * (q - pmin)
-        g3 = lambda q: ((q - pmin) / (pnom - pmin)) ** E
-        g5 = lambda q: slope * (q - pnom) + 1
-        q = sp.Symbol("qq")
-        dg = lambda f, at: sp.diff(f(q), q).subs(q, at)
-        checks = [
-            ("poly1 x1 = Pmin", x1a, pmin), ("poly1 x2 = Pmin + band", x2a, pmin + w_con),
-            ("poly1 f1 = g1(Pmin)", f1a, g1(pmin)), ("poly1 df1 = g1'(Pmin)", df1a, dg(g1, pmin)),
-            ("poly1 f2 = g3(Pmin+band)", f2a, g3(pmin + w_con)), ("poly1 df2 = g3'(Pmin+band)", df2a, dg(g3, pmin + w_con)),
-            ("poly2 x1 = Pnom - band", x1b, pnom - w_con), ("poly2 x2 = Pnom", x2b, pnom),
-            ("poly2 f1 = g3(Pnom-band)", f1b, g3(pnom - w_con)), ("poly2 df1 = g3'(Pnom-band)", df1b, dg(g3, pnom - w_con)),
-            ("poly2 f2 = g5(Pnom)", f2b, g5(pnom)), ("poly2 df2 = g5'(Pnom)", df2b, dg(g5, pnom)),
-        ]
-        for nm, got, want in checks:
-            # the exponent symbol in the param file may come from the junction or from the options: both canonicalise to pressure_exponent
-            chk.expect(is_zero(got - want), "R-C07-3", "spline data %s [%s]" % (nm, tag), loc(pfn),
-                       "the smoothing polynomial must start/end with the value and slope of the neighbouring analytic branch for ANY exponent, else the curve jumps at the band edge",
-                       expected=str(sp.simplify(want)), found=str(sp.simplify(got)))
-        # coefficient plumbing: poly1 <- first call, poly2 <- second call, a..d in order
-        for t, v, ln in p2.stores("m.pdd_poly"):
-            pass
-        vals = {}
-        for e in p2.st.events:
-            if e[0] == "store" and e[1].startswith("m.pdd_poly") and e[1].endswith("[node_name].value"):
-                vals[e[1]] = e[2]
-        params = [e for e in p2.st.events if e[0] == "call" and e[1].startswith("aml.Param(")]
-        stores = p2.stores("m.")          # every `m.<dict>[node_name] = aml.Param(v)` in order, paired with the Param calls in order
-        plumb = {}
-        sts_ = [s_ for s_ in stores if s_[0].endswith("[node_name]")]
-        if len(sts_) != len(params):
-            raise ExtractError("pdd_poly_coeffs_param: %d per-junction stores but %d aml.Param calls" % (len(sts_), len(params)))
-        for (t, v, ln), pe in zip(sts_, params):
-            plumb[t] = pe[2][1][0]
-        for i in (1, 2):
-            for k in "abcd":
-                key = "m.pdd_poly%d_coeffs_%s[node_name]" % (i, k)
-                got = plumb.get(key)
-                chk.expect(isinstance(got, Opaque) and got.text == "spline%d.%s" % (i - 1, k), "R-C07-3", "%s receives coefficient %s of spline call %d [%s]" % (key, k, i, tag), loc(pfn), found=got)
-        attrs = set(p2.updater_attrs())
-        need = {"minimum_pressure", "required_pressure"} | ({"pressure_exponent"} if eglob is not None else set())
-        chk.expect(need <= attrs, "R-C07-4", "pdd_poly_coeffs_param re-computes when the junction's Pmin/Pnom change [%s]" % tag, loc(pfn), found=sorted(attrs))
-        B.check_updaters(chk, "R-C07-4", pfn, "pdd_poly_coeffs_param", [p2], need, loc(pfn))
-    chk.floor("R-C07-3", 4 * 20)
+            rec2 = []
+            # re-run with a hook bound to this path's decisions
+            decisions = dict(pth.conds)
+
+            def th(txt, node, st, decisions=decisions):
+                r = B.std_test_hook(txt, node, st)
+                if r is not None:
+                    return r
+                return decisions.get(txt)
+            _, pp2, ex2 = B.run_builder(repo, PAR, "pdd_poly_coeffs_param.build", test_hook=th, call_hook=spline_hook(rec2))
+            pp2 = [q_ for q_ in pp2 if not q_.st.raised]
+            if len(pp2) != 1 or len(rec2) != 2:
+                raise ExtractError("pdd_poly_coeffs_param: expected one path with two cubic_spline calls, got %d paths / %d calls" % (len(pp2), len(rec2)))
+            npaths += 1
+            p2 = pp2[0]
+            eglob = decisions.get("wn.get_node(node_name).pressure_exponent is None")
+            tag = "Pmin %s, Pnom %s, E %s" % ("global" if decisions.get("wn.get_node(node_name).minimum_pressure is None") else "junction",
+                                                "global" if decisions.get("wn.get_node(node_name).required_pressure is None") else "junction",
+                                                "literal" if eglob is None else ("global" if eglob else "junction"))
+            rawE = set()
+            for r in rec2:
+                for v in r:
+                    try:
+                        rawE |= {s_.name for s_ in ex2.S(v).free_symbols if s_.name.endswith("pressure_exponent")}
+                    except ExtractError:
+                        pass
+            if eglob is not None:
+                wantE = {"wn.options.hydraulic.pressure_exponent"} if eglob else {"wn.get_node(node_name).pressure_exponent"}
+                chk.expect(rawE == wantE, "R-C07-4", "pdd_poly_coeffs_param takes the exponent from the junction if set, else from the global option [%s]" % tag, loc(pfn),
+                           "the spline data and the constraint must use the same exponent", expected=sorted(wantE), found=sorted(rawE))
+            # exponent used for the neighbours: the same junction-or-global rule; accept a param builder that reads the exponent (either source) or E
+            sub = {cs("minimum_pressure"): pmin, cs("required_pressure"): pnom}
+
+            def C(v):
+                e_, _ = canon(ex2.S(v))
+                return e_.xreplace(sub)
+            (x1a, x2a, f1a, f2a, df1a, df2a), (x1b, x2b, f1b, f2b, df1b, df2b) = [[C(v) for v in r] for r in rec2]
+            # the band width the spline data are built with; if the constraint reads its band from a per-junction Param, that Param must be
+            # filled here with the same expression (plumbing), else the guards and the fitted interval disagree
+            wb = sp.simplify(x2a - x1a)
+            wexprs.append((tag, wb))
+            if W == delta:
+                w_con = delta
+            else:
+                pname = [s_.name for s_ in W.free_symbols]
+                stored = None
+                for e in p2.st.events:
+                    if e[0] == "call" and e[1].startswith("aml.Param("):
+                        pass
+                sts = [x_ for x_ in p2.stores("m.") if x_[0].endswith("[node_name]") and canon(ex2.sym(x_[0]))[0] == W]
+                pars = [e for e in p2.st.events if e[0] == "call" and e[1].startswith("aml.Param(")]
+                allst = [x_ for x_ in p2.stores("m.") if x_[0].endswith("[node_name]")]
+                for (t_, v_, ln_), pe in zip(allst, pars):
+                    if canon(ex2.sym(t_))[0] == W:
+                        stored = C(pe[2][1][0])
+                if stored is None:
+                    chk.bad("R-C07-3", "the per-junction band width %s read by the constraint is filled by pdd_poly_coeffs_param [%s]" % (W, tag), loc(pfn),
+                            found=[x_[0] for x_ in allst][:12])
+                    continue
+                chk.expect(is_zero(stored - wb), "R-C07-3", "the band width stored for the constraint equals the one the splines are fitted on [%s]" % tag, loc(pfn),
+                           expected=str(wb), found=str(stored))
+                w_con = wb
+            g1 = lambda q: slope * (q - pmin)
+            g3 = lambda q: ((q - pmin) / (pnom - pmin)) ** E
+            g5 = lambda q: slope * (q - pnom) + 1
+            q = sp.Symbol("qq")
+            dg = lambda f, at: sp.diff(f(q), q).subs(q, at)
+            checks = [
+                ("poly1 x1 = Pmin", x1a, pmin), ("poly1 x2 = Pmin + band", x2a, pmin + w_con),
+                ("poly1 f1 = g1(Pmin)", f1a, g1(pmin)), ("poly1 df1 = g1'(Pmin)", df1a, dg(g1, pmin)),
+                ("poly1 f2 = g3(Pmin+band)", f2a, g3(pmin + w_con)), ("poly1 df2 = g3'(Pmin+band)", df2a, dg(g3, pmin + w_con)),
+                ("poly2 x1 = Pnom - band", x1b, pnom - w_con), ("poly2 x2 = Pnom", x2b, pnom),
+                ("poly2 f1 = g3(Pnom-band)", f1b, g3(pnom - w_con)), ("poly2 df1 = g3'(Pnom-band)", df1b, dg(g3, pnom - w_con)),
+                ("poly2 f2 = g5(Pnom)", f2b, g5(pnom)), ("poly2 df2 = g5'(Pnom)", df2b, dg(g5, pnom)),
+            ]
+            for nm, got, want in checks:
+                # the exponent symbol in the param file may come from the junction or from the options: both canonicalise to pressure_exponent
+                chk.expect(is_zero(got - want), "R-C07-3", "spline data %s [%s]" % (nm, tag), loc(pfn),
+                           "the smoothing polynomial must start/end with the value and slope of the neighbouring analytic branch for ANY exponent, else the curve jumps at the band edge",
+                           expected=str(sp.simplify(want)), found=str(sp.simplify(got)))
+            # coefficient plumbing: poly1 <- first call, poly2 <- second call, a..d in order
+            for t, v, ln in p2.stores("m.pdd_poly"):
+                pass
+            vals = {}
+            for e in p2.st.events:
+                if e[0] == "store" and e[1].startswith("m.pdd_poly") and e[1].endswith("[node_name].value"):
+                    vals[e[1]] = e[2]
+            params = [e for e in p2.st.events if e[0] == "call" and e[1].startswith("aml.Param(")]
+            stores = p2.stores("m.")          # every `m.<dict>[node_name] = aml.Param(v)` in order, paired with the Param calls in order
+            plumb = {}
+            sts_ = [s_ for s_ in stores if s_[0].endswith("[node_name]")]
+            if len(sts_) != len(params):
+                raise ExtractError("pdd_poly_coeffs_param: %d per-junction stores but %d aml.Param calls" % (len(sts_), len(params)))
+            for (t, v, ln), pe in zip(sts_, params):
+                plumb[t] = pe[2][1][0]
+            for i in (1, 2):
+                for k in "abcd":
+                    key = "m.pdd_poly%d_coeffs_%s[node_name]" % (i, k)
+                    got = plumb.get(key)
+                    chk.expect(isinstance(got, Opaque) and got.text == "spline%d.%s" % (i - 1, k), "R-C07-3", "%s receives coefficient %s of spline call %d [%s]" % (key, k, i, tag), loc(pfn), found=got)
+            attrs = set(p2.updater_attrs())
+            need = {"minimum_pressure", "required_pressure"} | ({"pressure_exponent"} if eglob is not None else set())
+            chk.expect(need <= attrs, "R-C07-4", "pdd_poly_coeffs_param re-computes when the junction's Pmin/Pnom change [%s]" % tag, loc(pfn), found=sorted(attrs))
+            B.check_updaters(chk, "R-C07-4", pfn, "pdd_poly_coeffs_param", [p2], need, loc(pfn))
+        chk.floor("R-C07-3", 4 * 20)
 
     # ---------------------------------------------------------------- R-C07-5 the four thresholds are ordered for EVERY legal Pmin < Preq
-    # (continuity was shown above branch by branch; it is only continuity of the CURVE if each branch is active on the interval its neighbours
-    # were fitted on, i.e. Pmin <= Pmin+band <= Preq-band <= Preq.  With a fixed band of 0.05 m and the default Preq = 0.07 m the bands overlapped.)
-    if dl is None:
-        raise ExtractError("pdd_smoothing_delta constant not found")
-    dval = float(dl[0])
-    opt_def = option_defaults(repo)
-    gaps = [1e-4, 0.02, 0.049, 0.05, 0.051, 0.07, 0.099, 0.1, 0.11, 0.2, 1.0, 20.0, 1e3]
-    if opt_def.get("required_pressure") is not None and opt_def.get("minimum_pressure") is not None:
-        gaps.append(opt_def["required_pressure"] - opt_def["minimum_pressure"])
-        chk.extra["default_pressure_range"] = gaps[-1]
-    nord = 0
-    for tag, wb in wexprs[:1] + [x_ for x_ in wexprs[1:] if not is_zero(x_[1] - wexprs[0][1])]:
-        for gp in sorted(set(gaps)):
-            bad_at = []
-            for pm in (-3.0, 0.0, 10.0):
-                wv = wb.xreplace({delta: sp.Float(dval), pmin: sp.Float(pm), pnom: sp.Float(pm + gp)})
-                try:
-                    wv = float(wv)
-                except TypeError:
-                    raise ExtractError("band width %s does not evaluate at Pmin=%s Preq=%s: %s" % (wb, pm, pm + gp, wv))
-                if not (wv > 0 and 2 * wv <= ((pm + gp) - pm) + 1e-12 * max(1.0, abs(pm))):     # the range as the floats carry it
-                    bad_at.append("Pmin=%g Preq=%g band=%g" % (pm, pm + gp, wv))
-            nord += 1
-            chk.expect(not bad_at, "R-C07-5", "thresholds Pmin <= Pmin+band <= Preq-band <= Preq are ordered for Preq - Pmin = %g" % gp, loc(pfn),
-                       "with overlapping bands the power-law branch is unreachable and the delivered demand jumps where the lower cubic hands over to the interior of the upper one",
-                       expected="0 < band <= (Preq - Pmin)/2", found="; ".join(bad_at))
-    chk.floor("R-C07-5", 12)
+    with chk.part("R-C07-5 the four thresholds are ordered for EVERY legal Pmin < Preq"):
+        # (continuity was shown above branch by branch; it is only continuity of the CURVE if each branch is active on the interval its neighbours
+        # were fitted on, i.e. Pmin <= Pmin+band <= Preq-band <= Preq.  With a fixed band of 0.05 m and the default Preq = 0.07 m the bands overlapped.)
+        if dl is None:
+            raise ExtractError("pdd_smoothing_delta constant not found")
+        dval = float(dl[0])
+        opt_def = option_defaults(repo)
+        gaps = [1e-4, 0.02, 0.049, 0.05, 0.051, 0.07, 0.099, 0.1, 0.11, 0.2, 1.0, 20.0, 1e3]
+        if opt_def.get("required_pressure") is not None and opt_def.get("minimum_pressure") is not None:
+            gaps.append(opt_def["required_pressure"] - opt_def["minimum_pressure"])
+            chk.extra["default_pressure_range"] = gaps[-1]
+        nord = 0
+        for tag, wb in wexprs[:1] + [x_ for x_ in wexprs[1:] if not is_zero(x_[1] - wexprs[0][1])]:
+            for gp in sorted(set(gaps)):
+                bad_at = []
+                for pm in (-3.0, 0.0, 10.0):
+                    wv = wb.xreplace({delta: sp.Float(dval), pmin: sp.Float(pm), pnom: sp.Float(pm + gp)})
+                    try:
+                        wv = float(wv)
+                    except TypeError:
+                        raise ExtractError("band width %s does not evaluate at Pmin=%s Preq=%s: %s" % (wb, pm, pm + gp, wv))
+                    if not (wv > 0 and 2 * wv <= ((pm + gp) - pm) + 1e-12 * max(1.0, abs(pm))):     # the range as the floats carry it
+                        bad_at.append("Pmin=%g Preq=%g band=%g" % (pm, pm + gp, wv))
+                nord += 1
+                chk.expect(not bad_at, "R-C07-5", "thresholds Pmin <= Pmin+band <= Preq-band <= Preq are ordered for Preq - Pmin = %g" % gp, loc(pfn),
+                           "with overlapping bands the power-law branch is unreachable and the delivered demand jumps where the lower cubic hands over to the interior of the upper one",
+                           expected="0 < band <= (Preq - Pmin)/2", found="; ".join(bad_at))
+        chk.floor("R-C07-5", 12)
 
     # ---------------------------------------------------------------- R-C07-4 overrides
-    for pname, dname, attr in (("pmin_param", "pmin", "minimum_pressure"), ("pnom_param", "pnom", "required_pressure")):
-        fn2, pths, ex2 = B.run_builder(repo, PAR, pname + ".build")
-        chk.fn(fn2)
-        seen = set()
-        for p in pths:
-            if p.st.raised:
-                continue
-            none = [v for t, v in p.conds if t == "wn.get_node(node_name).%s is None" % attr]
-            if not none:
-                chk.bad("R-C07-4", "%s tests the junction's %s for None" % (pname, attr), loc(fn2), found=p.label)
-                continue
-            params = [e for e in p.st.events if e[0] == "call" and e[1].startswith("aml.Param(")]
-            val = params[-1][2][1][0] if params else None
-            want = "wn.options.hydraulic.%s" % attr if none[0] else "wn.get_node(node_name).%s" % attr
-            chk.expect(isinstance(val, Opaque) and val.text == want, "R-C07-4", "%s uses %s" % (pname, "the global option when the junction has none" if none[0] else "the junction's override"),
-                       loc(fn2), expected=want, found=val)
-            seen.add(none[0])
-            B.check_updaters(chk, "R-C07-4", fn2, pname, [p], {attr}, loc(fn2))
-        chk.expect(seen == {True, False}, "R-C07-4", "%s handles both override cases" % pname, loc(fn2), found=sorted(seen))
-    chk.floor("R-C07-4", 8)
+    with chk.part("R-C07-4 overrides"):
+        for pname, dname, attr in (("pmin_param", "pmin", "minimum_pressure"), ("pnom_param", "pnom", "required_pressure")):
+            fn2, pths, ex2 = B.run_builder(repo, PAR, pname + ".build")
+            chk.fn(fn2)
+            seen = set()
+            for p in pths:
+                if p.st.raised:
+                    continue
+                none = [v for t, v in p.conds if t == "wn.get_node(node_name).%s is None" % attr]
+                if not none:
+                    chk.bad("R-C07-4", "%s tests the junction's %s for None" % (pname, attr), loc(fn2), found=p.label)
+                    continue
+                params = [e for e in p.st.events if e[0] == "call" and e[1].startswith("aml.Param(")]
+                val = params[-1][2][1][0] if params else None
+                want = "wn.options.hydraulic.%s" % attr if none[0] else "wn.get_node(node_name).%s" % attr
+                chk.expect(isinstance(val, Opaque) and val.text == want, "R-C07-4", "%s uses %s" % (pname, "the global option when the junction has none" if none[0] else "the junction's override"),
+                           loc(fn2), expected=want, found=val)
+                seen.add(none[0])
+                B.check_updaters(chk, "R-C07-4", fn2, pname, [p], {attr}, loc(fn2))
+            chk.expect(seen == {True, False}, "R-C07-4", "%s handles both override cases" % pname, loc(fn2), found=sorted(seen))
+        chk.floor("R-C07-4", 8)
 
     # ---------------------------------------------------------------- R-C07-6 the overrides reach the model whenever they change
-    from ._shared import rule_changes_forwarded
-    rule_changes_forwarded(repo, chk, "R-C07-6")
-    chk.floor("R-C07-6", 2)
+    with chk.part("R-C07-6 the overrides reach the model whenever they change"):
+        from ._shared import rule_changes_forwarded
+        rule_changes_forwarded(repo, chk, "R-C07-6")
+        chk.floor("R-C07-6", 2)
 
     # ---------------------------------------------------------------- R-C07-7 every junction's curve is built from that junction's own data
-    # (side condition of the single-iteration extraction above: the element loops carry nothing from one junction to the next)
-    n7 = B.check_loop_independence(repo, chk, "R-C07-7", [(CON, "pdd_constraint.build"), (PAR, "pmin_param.build"), (PAR, "pnom_param.build"),
-                                                         (PAR, "pdd_poly_coeffs_param.build"), (PAR, "expected_demand_param"), (B.VAR, "demand_var")], "junction")
-    chk.floor("R-C07-7", 6)
+    with chk.part("R-C07-7 every junction's curve is built from that junction's own data"):
+        # (side condition of the single-iteration extraction above: the element loops carry nothing from one junction to the next)
+        n7 = B.check_loop_independence(repo, chk, "R-C07-7", [(CON, "pdd_constraint.build"), (PAR, "pmin_param.build"), (PAR, "pnom_param.build"),
+                                                             (PAR, "pdd_poly_coeffs_param.build"), (PAR, "expected_demand_param"), (B.VAR, "demand_var")], "junction")
+        chk.floor("R-C07-7", 6)
 
 
 HYD = "wntr/sim/hydraulics.py"
